@@ -14,6 +14,7 @@ reported `Error` lies between `indel/blen` and `(blen + indel)/(RMatchCost·blen
 import Biogo.Proofs.PalsKernel
 import Biogo.Proofs.PalsKernelSound
 import Biogo.Properties.C15
+import Biogo.Proofs.PalsSuppress
 
 namespace Biogo.Properties.C15_kernel
 open Biogo.Spec.Alignment Biogo.PalsOracle Biogo.Spec.PalsKernel Biogo.Proofs.PalsKernel
@@ -85,10 +86,12 @@ hit by hit with `dp.AlignTraps`.  The theorems below are about that model, with 
 `palsCosts` the driver uses. -/
 
 open Biogo.Proofs.PalsKernelSound in
-/-- the functions the kernel model transcribes are the ones it was written against -/
+/-- the functions the kernel model transcribes are the ones it was written against (since the
+    seventh repair also the two `Less` methods of `dp/sort.go`: the model sorts by both coordinates) -/
 theorem kernel_source_facts :
     fpTraceForward = "3242f214c997c8ca" ∧ fpTraceReverse = "28298aacb4d36e37" ∧
-    fpAlignRecursion = "d76e96b076003751" ∧ fpAlignTraps = "12866ecdea35edb5" := by decide
+    fpAlignRecursion = "d76e96b076003751" ∧ fpAlignTraps = "12866ecdea35edb5" ∧
+    fpStartsLess = "b7d2e4dbaeec5a67" ∧ fpEndsLess = "a5365f6edcfa5bf9" := by decide
 
 open Biogo.Proofs.PalsKernelSound in
 theorem palsCosts_ok : CostsOK palsCosts ∧ palsCosts.matchCost - palsCosts.diffCost = 1 ∧ palsCosts.diffCost = 3 := by
@@ -161,6 +164,131 @@ theorem kernel_model_hits_consistent (s : Biogo.PalsKernel.Seqs)
   have ok := kernel_model_hits_under_contract s hvt hvq traps k minLen num den hml htr kh hk
   exact ⟨hit_under_contract_consistent _ _ _ ok hb, hit_under_contract_below_oracle _ _ _ ok hb⟩
 
+open Biogo.Proofs.PalsKernelSound in
+/-- **`kernel_model_split_hits_under_contract`** — the same for the recursion that also splits a
+    trapezoid by diagonals (`emittedWith true`: after an alignment it recurses into the diagonals to
+    the left and right of the alignment's band as well — the candidate repair of finding K6, which
+    the driver's K6 recogniser runs): every hit it emits is under contract, passes `consistent` and
+    respects the oracle.  So the recogniser never credits the repaired recursion with a hit that is
+    not a real alignment. -/
+theorem kernel_model_split_hits_under_contract (split : Bool) (s : Biogo.PalsKernel.Seqs)
+    (hvt : ∀ x ∈ s.target.toList, Biogo.PalsKernel.validLetter x = true)
+    (hvq : ∀ x ∈ s.query.toList, Biogo.PalsKernel.validLetter x = true)
+    (traps : List Biogo.PalsMerge.Trap) (k minLen num den : Int) (hml : 0 ≤ minLen)
+    (htr : TrapsIn s.qlen traps.toArray) :
+    ∀ kh ∈ Biogo.PalsKernel.emittedWith split palsCosts s traps k minLen num den,
+      HitOK palsMatrix s.target.toList s.query.toList ⟨kh.h, kh.lowDiagonal, kh.highDiagonal⟩ ∧
+      (kh.h.bbpos < kh.h.bepos →
+        consistent SameCost DiffCost ⟨kh.h, kh.lowDiagonal, kh.highDiagonal⟩ = true ∧
+        kh.h.score ≤ palsGlobal (slice s.target.toList kh.h.abpos kh.h.aepos) (slice s.query.toList kh.h.bbpos kh.h.bepos)) := by
+  intro kh hk
+  have ok : HitOK palsMatrix s.target.toList s.query.toList ⟨kh.h, kh.lowDiagonal, kh.highDiagonal⟩ :=
+    emittedWith_hitOK split palsCosts palsCosts_ok.1 palsCosts_ok.2.1 palsCosts_ok.2.2 s hvt hvq traps k minLen num den hml htr kh hk
+  exact ⟨ok, fun hb => ⟨hit_under_contract_consistent _ _ _ ok hb, hit_under_contract_below_oracle _ _ _ ok hb⟩⟩
+
+/-! ### the whole of `AlignTraps`: kernel, acceptance test and suppression together -/
+
+theorem startLe_trans (a b c : Biogo.PalsOracle.Hit) (h1 : Biogo.PalsKernel.startLe a b = true)
+    (h2 : Biogo.PalsKernel.startLe b c = true) : Biogo.PalsKernel.startLe a c = true := by
+  unfold Biogo.PalsKernel.startLe at *
+  split at h1 <;> split at h2 <;> split <;> simp only [decide_eq_true_eq] at * <;> omega
+
+theorem startLe_total (a b : Biogo.PalsOracle.Hit) :
+    (Biogo.PalsKernel.startLe a b || Biogo.PalsKernel.startLe b a) = true := by
+  unfold Biogo.PalsKernel.startLe
+  split <;> split <;> simp only [Bool.or_eq_true, decide_eq_true_eq] <;> omega
+
+theorem endLe_trans (a b c : Biogo.PalsOracle.Hit) (h1 : Biogo.PalsKernel.endLe a b = true)
+    (h2 : Biogo.PalsKernel.endLe b c = true) : Biogo.PalsKernel.endLe a c = true := by
+  unfold Biogo.PalsKernel.endLe at *
+  split at h1 <;> split at h2 <;> split <;> simp only [decide_eq_true_eq] at * <;> omega
+
+theorem endLe_total (a b : Biogo.PalsOracle.Hit) :
+    (Biogo.PalsKernel.endLe a b || Biogo.PalsKernel.endLe b a) = true := by
+  unfold Biogo.PalsKernel.endLe
+  split <;> split <;> simp only [Bool.or_eq_true, decide_eq_true_eq] <;> omega
+
+/-- **`suppression_leaves_one_per_point`** — the suppression of `AlignTraps` after the seventh
+    repair, for *any* two sorts that return a permutation ordered by `(Abpos, Bbpos)`, resp.
+    `(Aepos, Bepos)` (whatever they do with equal keys — `sort.Sort` is not stable): no two returned
+    hits begin at the same point and no two end at the same point.  With `Less` on `Abpos` / `Aepos`
+    alone (the code before the repair) this fails: a hit with the same `Abpos` and another `Bbpos`
+    may sort between two hits with the same start (seventh defect, `corpus/C15.txt`). -/
+theorem suppression_leaves_one_per_point (sortStart sortEnd : List Biogo.PalsOracle.Hit → List Biogo.PalsOracle.Hit)
+    (p2 : ∀ l, (sortEnd l).Perm l)
+    (s1 : ∀ l, (sortStart l).Pairwise (fun a b => keyLe (a.abpos, a.bbpos) (b.abpos, b.bbpos)))
+    (s2 : ∀ l, (sortEnd l).Pairwise (fun a b => keyLe (a.aepos, a.bepos) (b.aepos, b.bepos)))
+    (segs : List Biogo.PalsOracle.Hit) :
+    (suppress sortStart sortEnd segs).Pairwise
+      (fun a b => (a.abpos, a.bbpos) ≠ (b.abpos, b.bbpos) ∧ (a.aepos, a.bepos) ≠ (b.aepos, b.bepos)) :=
+  suppress_distinct sortStart sortEnd p2 s1 s2 segs
+
+/-- the seventh defect in the suppression model: the emission order `1, 2, 1` of the witness in
+    `corpus/C15.txt` is sorted by `Abpos` and by `Aepos` (both constant), so sorts that compare one
+    coordinate only may leave it as it is, and the hit `300..500 × 200..400` is returned twice;
+    a sort on both coordinates makes the copies neighbours -/
+example : suppress id id [⟨300, 200, 500, 400, 200⟩, ⟨300, 650, 500, 850, 200⟩, ⟨300, 200, 500, 400, 200⟩] =
+    [⟨300, 200, 500, 400, 200⟩, ⟨300, 650, 500, 850, 200⟩, ⟨300, 200, 500, 400, 200⟩] := by decide
+
+-- ordered by both coordinates the two copies are neighbours and one is removed
+example : suppress id id [⟨300, 200, 500, 400, 200⟩, ⟨300, 200, 500, 400, 200⟩, ⟨300, 650, 500, 850, 200⟩] =
+    [⟨300, 200, 500, 400, 200⟩, ⟨300, 650, 500, 850, 200⟩] := by decide
+
+open Biogo.Proofs.PalsKernelSound in
+/-- **`alignTraps_sound`** — one statement about the whole of `AlignTraps` (the model the driver
+    runs and compares hit by hit with `dp.AlignTraps`: kernel on every trapezoid, acceptance test,
+    coverage marks, the two suppression passes), for sequences of valid letters, trapezoids within
+    the query rows, a positive minimum length.  Every **reported** hit
+    * is one of the hits the kernel emitted, unchanged;
+    * lies inside both sequences and its score is that of some global alignment of its two
+      regions (`HitOK`), so it passes the per-hit conditions the driver evaluates (`consistent`)
+      and `Score ≤ palsGlobal(regions)`;
+    * meets the thresholds: both lengths `≥ minLen`, `errNum·den ≤ num·RMatchCost·blen`
+      (`Error ≤ 1 − minId`);
+    and **no two reported hits begin at the same point, and no two end at the same point**. -/
+theorem alignTraps_sound (s : Biogo.PalsKernel.Seqs)
+    (hvt : ∀ x ∈ s.target.toList, Biogo.PalsKernel.validLetter x = true)
+    (hvq : ∀ x ∈ s.query.toList, Biogo.PalsKernel.validLetter x = true)
+    (traps : List Biogo.PalsMerge.Trap) (k minLen num den : Int) (hml : 0 < minLen)
+    (htr : TrapsIn s.qlen traps.toArray) :
+    (∀ h ∈ Biogo.PalsKernel.alignTraps palsCosts s traps k minLen num den,
+      ∃ kh ∈ Biogo.PalsKernel.emitted palsCosts s traps k minLen num den, kh.h = h ∧
+        HitOK palsMatrix s.target.toList s.query.toList ⟨h, kh.lowDiagonal, kh.highDiagonal⟩ ∧
+        consistent SameCost DiffCost ⟨h, kh.lowDiagonal, kh.highDiagonal⟩ = true ∧
+        h.score ≤ palsGlobal (slice s.target.toList h.abpos h.aepos) (slice s.query.toList h.bbpos h.bepos) ∧
+        h.alen ≥ minLen ∧ h.blen ≥ minLen ∧ h.errNum * den ≤ num * (RMatchCost * h.blen)) ∧
+    (Biogo.PalsKernel.alignTraps palsCosts s traps k minLen num den).Pairwise
+      (fun a b => (a.abpos, a.bbpos) ≠ (b.abpos, b.bbpos) ∧ (a.aepos, a.bepos) ≠ (b.aepos, b.bepos)) := by
+  constructor
+  · intro h hh
+    unfold Biogo.PalsKernel.alignTraps Biogo.PalsKernel.suppressed at hh
+    have hin := (suppression_returns_emitted_hits _ _
+      (fun l x => List.mem_mergeSort) (fun l x => List.mem_mergeSort) _ h hh).1
+    obtain ⟨kh, hk, rfl⟩ := List.mem_map.mp hin
+    have ok := kernel_model_hits_under_contract s hvt hvq traps k minLen num den (Int.le_of_lt hml) htr kh hk
+    have acc := (emitted_accepted palsCosts palsCosts_ok.1 s traps k minLen num den (Int.le_of_lt hml) htr kh hk).1
+    have thr := accepted_hit_meets_thresholds minLen num den kh.h acc
+    have hb : kh.h.bbpos < kh.h.bepos := by
+      have := thr.2.1
+      simp only [Biogo.PalsOracle.Hit.blen] at this
+      omega
+    exact ⟨kh, hk, rfl, ok, hit_under_contract_consistent _ _ _ ok hb, hit_under_contract_below_oracle _ _ _ ok hb, thr⟩
+  · unfold Biogo.PalsKernel.alignTraps Biogo.PalsKernel.suppressed
+    apply suppression_leaves_one_per_point
+    · intro l; exact List.mergeSort_perm l _
+    · intro l
+      apply List.Pairwise.imp _ (List.pairwise_mergeSort startLe_trans startLe_total l)
+      intro a b hab
+      unfold Biogo.PalsKernel.startLe at hab
+      unfold keyLe
+      split at hab <;> simp only [decide_eq_true_eq] at hab <;> simp only [] <;> omega
+    · intro l
+      apply List.Pairwise.imp _ (List.pairwise_mergeSort endLe_trans endLe_total l)
+      intro a b hab
+      unfold Biogo.PalsKernel.endLe at hab
+      unfold keyLe
+      split at hab <;> simp only [decide_eq_true_eq] at hab <;> simp only [] <;> omega
+
 /-! non-vacuity: a 16-letter target repeated inside a 20-letter query, one trapezoid around the
 diagonal `q − t = 2`; the model emits one hit, the hypotheses of `kernel_model_hits_under_contract`
 hold and so does its conclusion -/
@@ -177,5 +305,31 @@ example : HitOK palsMatrix exTarget.toList exQuery.toList ⟨⟨0, 2, 16, 18, 16
     (by decide) (by intro t ht; simp at ht; subst ht; decide)
     ⟨⟨0, 2, 16, 18, 16⟩, -9, 2, 0⟩ (by decide +kernel)
   exact h
+
+/-! ### finding K6 in the model, and non-vacuity of `alignTraps_sound` -/
+
+/-- a 16-letter segment twice in the target (at 0 and at 24), once in the query: two alignments over
+    the same query rows on the diagonals 0 and 24 -/
+def k6Target : Array Nat := exTarget ++ #[116, 116, 116, 116, 103, 103, 103, 103] ++ exTarget
+def k6Query : Array Nat := exTarget
+
+/-- **`k6_in_the_model`** — finding K6 on 40 letters: one trapezoid over all query rows and both
+    diagonals (`q − t ∈ [−26, 2]`).  The recursion of the source (`emittedWith false`, what the
+    correspondence compares with `dp.AlignTraps`) aligns through the middle row once, finds the
+    copy at 24 and has no rows left; the recursion that also splits by diagonals (`emittedWith true`,
+    the candidate repair the K6 recogniser runs) finds the copy at 0 as well.  Both hits are real
+    (`kernel_model_split_hits_under_contract`). -/
+theorem k6_in_the_model :
+    Biogo.PalsKernel.emittedWith false palsCosts ⟨k6Target, k6Query⟩ [⟨16, 0, -26, 2⟩] 4 10 100 1000 =
+      [⟨⟨24, 0, 40, 16, 16⟩, 17, 27, 0⟩] ∧
+    Biogo.PalsKernel.emittedWith true palsCosts ⟨k6Target, k6Query⟩ [⟨16, 0, -26, 2⟩] 4 10 100 1000 =
+      [⟨⟨24, 0, 40, 16, 16⟩, 17, 27, 0⟩, ⟨⟨0, 0, 16, 16, 16⟩, -7, 3, 0⟩] := by
+  constructor <;> decide +kernel
+
+open Biogo.Proofs.PalsKernelSound in
+/-- the hypotheses of `alignTraps_sound` hold on the example of `kernel_model_hits_under_contract`
+    (and on the K6 pair); its conclusion is the statement about `AlignTraps` as a whole -/
+example := alignTraps_sound ⟨exTarget, exQuery⟩ (by decide) (by decide) [⟨20, 0, 1, 3⟩] 4 10 100 1000
+  (by decide) (by intro t ht; simp at ht; subst ht; decide)
 
 end Biogo.Properties.C15_kernel
